@@ -385,6 +385,23 @@ def run_lanes(prop, seed, outdir):
     return summary, violations
 
 
+def probe_send_sync(outdir):
+    """Compile-time clause of C18. Returns None if Regex is Send + Sync, else a violation record;
+    raises RuntimeError when the probe cannot be built for another reason."""
+    pdir = os.path.join(HARNESS, "probe_send_sync")
+    env = dict(ENV, CARGO_TARGET_DIR=os.path.join(VERIF, "target", "probe"))
+    p = subprocess.run(["cargo", "check", "--offline"], cwd=pdir, env=env, stdout=subprocess.PIPE, stderr=subprocess.STDOUT, text=True)
+    if p.returncode == 0:
+        return None
+    text = p.stdout
+    if "cannot be sent between threads safely" in text or "cannot be shared between threads safely" in text or ("E0277" in text and ("Send" in text or "Sync" in text)):
+        logp = os.path.join(outdir, "send_sync_probe.log")
+        with open(logp, "w") as f:
+            f.write(text)
+        return {"property": "C18", "kind": "regex_not_send_sync", "observed": "the probe crate asserting Regex: Send + Sync does not compile: " + text[-700:], "expected": "Regex is Send + Sync", "case": {"pattern": "", "flags": "", "input": "", "aux": "compile-time probe"}, "original_case": {}, "shrink_complete": False, "facts": {"has_ast": False, "log": logp}}
+    raise RuntimeError(text[-1500:])
+
+
 def union_hashes(outdirs, n):
     seen = set()
     for outdir in outdirs:
@@ -503,6 +520,16 @@ def check(prop, tier, seed, record_canaries=False):
     truncated = any(r.get("truncated") for r in reports.values())
     rule = next((r.get("rule") for r in reports.values() if r.get("rule")), "")
 
+    send_sync = None
+    if prop == "C18":
+        try:
+            v = probe_send_sync(outdir)
+            send_sync = "Regex: Send + Sync holds (probe crate compiles)" if v is None else "VIOLATED"
+            if v:
+                violations.append(v)
+        except RuntimeError as e:
+            log("BUILD-FAILED: the Send + Sync probe crate does not build for an unrelated reason:\n" + str(e))
+            return 2
     lane_summary = {}
     if tier == "thorough" and prop in ("C05", "C18") and not os.environ.get("VERIF_NO_LANES"):
         lane_summary, lane_viol = run_lanes(prop, seed, outdir)
@@ -599,6 +626,7 @@ def check(prop, tier, seed, record_canaries=False):
         "canary_phase": {"seed": CANARY_SEED, "logical_shards": CANARY_SHARDS, "cases": sum(r["evaluations"] for r in can_reports.values()), "listed_known_failures": len(canary_known), "listed_known_failures_seen_again": canary_listed_seen, "attribution": "exact identity (kind, pattern, flags, dialect, replacement, aux)"},
         "unattributed_violations": len(unknown),
         "incidents": [{k: inc.get(k) for k in ("first", "solo", "detail")} for inc in incidents][:10],
+        "send_sync_probe": send_sync if prop == "C18" else "n/a",
         "sanitizer_lanes": lane_summary if lane_summary else ("not run in the quick tier (build cost); see the thorough tier" if prop in ("C05", "C18") else "not applicable: no unsafe code, threads or shared state behind this property"),
         "oracle_selftest": {k: st.get(k) for k in ("repo_expectations_checked", "repo_expectations_found", "roundtrip_cases")},
         "insufficient": problems,
